@@ -21,7 +21,8 @@ namespace Sessions
 /-! ## the regenerated constants are the ones the property names -/
 
 theorem status_codes : stNotFound = 404 ∧ stForbidden = 403 ∧ stStatelessNotPost = 405 ∧
-    stOtherMethod = 405 ∧ stDeleted = 204 ∧ stMissingIdGet = 400 ∧ stMissingIdDelete = 400 := by decide
+    stOtherMethod = 405 ∧ stDeleted = 204 ∧ stMissingIdGet = 400 ∧ stMissingIdDelete = 400 ∧
+    stConnectFailed = 500 ∧ stStoreOpenFailed = 500 ∧ stReplayFailed = 400 := by decide
 
 theorem header_name : Generated.Sessions.sessionIDHeader = "Mcp-Session-Id" := by decide
 
@@ -70,7 +71,7 @@ theorem step_keeps {s s' : State} {l : Label} {r : Resp} (h : step s l = some (s
       (e.removed = true → e'.removed = true) ∧ (e.closing = true → e'.closing = true) := by
   intro e he
   obtain ⟨_, _, hcase⟩ := step_cases h
-  rcases hcase with ⟨ht, _⟩ | ⟨u, k, _, _, ht, _, _⟩ | ⟨pre, e0, post, e0', h1, h2, _, hm, _, _, _⟩
+  rcases hcase with ⟨ht, _⟩ | ⟨u, k, e1, _, _, ht, _, _⟩ | ⟨pre, e0, post, e0', h1, h2, _, hm, _, _, _⟩
   · exact ⟨e, by rw [ht]; exact he, rfl, rfl, id, id⟩
   · exact ⟨e, by rw [ht]; exact List.mem_append_left _ he, rfl, rfl, id, id⟩
   · rw [h1] at he
@@ -97,6 +98,37 @@ theorem exec_keeps (s : State) (ls : List Label) :
       obtain ⟨e2, h2, a', b', c', d'⟩ := ih s' e1 h1
       exact ⟨e2, h2, a'.trans a, b'.trans b, fun x => c' (c x), fun x => d' (d x)⟩
     · exact ih s e he
+
+/-- One step keeps a quiet entry quiet (closing, no handler in flight). -/
+theorem step_keeps_quiet {s s' : State} {l : Label} {r : Resp} (h : step s l = some (s', r)) :
+    ∀ e ∈ s.tbl, Quiet e → ∃ e' ∈ s'.tbl, e'.id = e.id ∧ Quiet e' := by
+  intro e he hq
+  obtain ⟨_, _, hcase⟩ := step_cases h
+  rcases hcase with ⟨ht, _⟩ | ⟨u, k, e1, _, _, ht, _, _⟩ | ⟨pre, e0, post, e0', h1, h2, _, hm, _, _, _⟩
+  · exact ⟨e, by rw [ht]; exact he, rfl, hq⟩
+  · exact ⟨e, by rw [ht]; exact List.mem_append_left _ he, rfl, hq⟩
+  · rw [h1] at he
+    rcases List.mem_append.mp he with he | he
+    · exact ⟨e, by rw [h2]; exact List.mem_append_left _ he, rfl, hq⟩
+    · cases he with
+      | head => exact ⟨e0', by rw [h2]; simp, (move_fields hm).1, move_quiet hm hq⟩
+      | tail _ he =>
+        exact ⟨e, by rw [h2]; exact List.mem_append_right _ (List.mem_cons_of_mem _ he), rfl, hq⟩
+
+theorem exec_keeps_quiet (s : State) (ls : List Label) :
+    ∀ e ∈ s.tbl, Quiet e → ∃ e' ∈ (exec s ls).tbl, e'.id = e.id ∧ e'.closing = true ∧ e'.busy = 0 ∧
+      e'.initBusy = 0 := by
+  induction ls generalizing s with
+  | nil => intro e he hq; exact ⟨e, he, rfl, hq.1, hq.2.1, hq.2.2⟩
+  | cons l ls ih =>
+    intro e he hq
+    simp only [exec]
+    split
+    · rename_i s' r h
+      obtain ⟨e1, h1, a, q1⟩ := step_keeps_quiet h e he hq
+      obtain ⟨e2, h2, a', q2⟩ := ih s' e1 h1 q1
+      exact ⟨e2, h2, a'.trans a, q2⟩
+    · exact ih s e he hq
 
 theorem lookup_removed {s : State} (hi : Inv s) {e : Sess} (he : e ∈ s.tbl) (hr : e.inMap = false)
     (u : User) : lookup s.tbl e.id u = .error 404 := by
@@ -134,7 +166,10 @@ theorem id_minted_only_on_creating_post {cfg : Cfg} {s s' : State} {l : Label} {
   unfold step at h
   split at h
   · cases l <;> simp only [stepStateless] at h
-    case postBegin => cases h
+    case postBegin =>
+      split at h
+      · cases h
+      · simp only [postResp] at h; split at h <;> cases h
     case postEnd sid c => cases sid <;> simp only [] at h <;> (try split at h) <;> cases h
     all_goals cases h
   · rename_i hst
@@ -142,7 +177,7 @@ theorem id_minted_only_on_creating_post {cfg : Cfg} {s s' : State} {l : Label} {
     cases l <;> simp only [stepStateful] at h
     case postBegin sid u k =>
       cases sid <;> simp only [] at h
-      · cases h
+      · split at h <;> cases h
       · rename_i j
         split at h
         · cases h
@@ -150,32 +185,45 @@ theorem id_minted_only_on_creating_post {cfg : Cfg} {s s' : State} {l : Label} {
           split at h
           · cases h
           · rename_i t hm
-            cases hk : k.isInitialize <;> simp [hk] at h
-            obtain ⟨h1, h2, _⟩ := h
-            subst h1; subst h2
-            obtain ⟨pre, e1, post, e1', p1, p2, _⟩ := modify_some hm
-            exact ⟨by simp [p1, p2], Or.inr ⟨u, k, e, rfl, hk, hl⟩⟩
+            simp only [postResp] at h
+            split at h
+            · cases hk : k.isInitialize <;> simp [hk] at h
+              obtain ⟨h1, h2, _⟩ := h
+              subst h1; subst h2
+              obtain ⟨pre, e1, post, e1', p1, p2, _⟩ := modify_some hm
+              exact ⟨by simp [p1, p2], Or.inr ⟨u, k, e, rfl, hk, hl⟩⟩
+            · cases h
     case publish j =>
       split at h
-      · rename_i e t hf hm
-        simp at h
-        obtain ⟨h1, h2, _⟩ := h
-        subst h1
-        obtain ⟨pre, e1, post, e1', p1, p2, _, _, p5, p6⟩ := modify_some hm
-        rw [hf] at p6; cases p6
-        have hmem := (findSess_some hf).1
-        have hid := (findSess_some hf).2
-        cases hp : e.pending with
-        | none => simp [hp] at h2
-        | some k =>
-          cases hk : k.isInitialize <;> simp [hp, hk] at h2
-          subst h2
-          have hg := (hi.good e hmem).pending (by simp [hp])
-          exact ⟨by simp [p1, p2], Or.inl ⟨rfl, e, hmem, k, hid, hg.1, hp, hk, hg.2.1⟩⟩
+      · rename_i e hf
+        split at h
+        · rename_i k hp
+          split at h
+          · rename_i t hm
+            simp only [postResp] at h
+            split at h
+            · cases hk : k.isInitialize <;> simp [hk] at h
+              obtain ⟨h1, h2, _⟩ := h
+              subst h1; subst h2
+              obtain ⟨pre, e1, post, e1', p1, p2, _, _, p5, p6⟩ := modify_some hm
+              rw [hf] at p6; cases p6
+              have hmem := (findSess_some hf).1
+              have hid := (findSess_some hf).2
+              have hg := (hi.good e hmem).pending (by simp [hp])
+              exact ⟨by simp [p1, p2], Or.inl ⟨rfl, e, hmem, k, hid, hg.1, hp, hk, hg.2.1⟩⟩
+            · cases h
+          · cases h
+        · cases h
       · cases h
     case handlerDone => split at h <;> cases h
     case postEnd sid c => cases sid <;> simp only [] at h <;> (try split at h) <;> cases h
-    case get sid u => cases sid <;> simp only [] at h <;> (try split at h) <;> cases h
+    case get sid u =>
+      cases sid <;> simp only [] at h
+      · cases h
+      · split at h
+        · cases h
+        · split at h <;> cases h
+    case faults => cases h
     case delete sid u =>
       cases sid <;> simp only [] at h
       · cases h
@@ -188,24 +236,42 @@ theorem id_minted_only_on_creating_post {cfg : Cfg} {s s' : State} {l : Label} {
     case serverClose => split at h <;> cases h
     case closeDone => split at h <;> cases h
 
-/-- The table only ever grows by a POST without a session id (nothing else mints a session), and the
-id it mints is fresh: no entry, live or removed, ever had it. -/
+/-- The table only ever grows by a POST without a session id (nothing else mints an id), and the id it
+mints is fresh: no entry, live or removed, ever had it.  Either a session is created (`newSess`: bound
+to the POST's user, waiting for its publication), or — the event store refuses `Transport.Connect` —
+the POST is answered 500 and the minted id is born dead (`failedSess`: never in the handler's table,
+never listed by the server; `dead_after_removal` applies to it from the start). -/
 theorem session_created_only_by_post_without_id {cfg : Cfg} {s s' : State} {l : Label} {r : Resp}
     (hr : Reach cfg s) (hfix : cfg.publishChecks = true)
     (h : step s l = some (s', r)) (hlen : s'.tbl.length ≠ s.tbl.length) :
-    ∃ u k, l = .postBegin none u k ∧ s.cfg.stateless = false ∧ s'.tbl = s.tbl ++ [newSess s u k] ∧
-      (newSess s u k).id = s.next ∧ (newSess s u k).owner = u ∧ ∀ e ∈ s.tbl, e.id ≠ s.next := by
+    ∃ u k e0, l = .postBegin none u k ∧ s.cfg.stateless = false ∧ s'.tbl = s.tbl ++ [e0] ∧
+      e0.id = s.next ∧ e0.owner = u ∧ (∀ e ∈ s.tbl, e.id ≠ s.next) ∧
+      ((e0 = newSess s u k ∧ r = .tau) ∨
+       (e0 = failedSess s u ∧ r = .reject 500 ∧ cfg.eventStore = true ∧ s.faults.connOpen = true ∧
+          e0.removed = true ∧ e0.inMap = false)) := by
   have hi := reach_inv hr hfix
+  have hcfg := reach_cfg hr
   obtain ⟨_, _, hcase⟩ := step_cases h
-  rcases hcase with ⟨ht, _⟩ | ⟨u, k, hl, hst, ht, _, _⟩ | ⟨pre, e0, post, e0', h1, h2, _⟩
+  rcases hcase with ⟨ht, _⟩ | ⟨u, k, e0, hl, hst, ht, he0, _, _⟩ | ⟨pre, e0, post, e0', h1, h2, _⟩
   · rw [ht] at hlen; exact absurd rfl hlen
-  · refine ⟨u, k, hl, hst, ht, rfl, rfl, ?_⟩
-    intro e he hid
-    have := ids_lt hi e he
-    omega
+  · have hfresh : ∀ e ∈ s.tbl, e.id ≠ s.next := by
+      intro e he hid
+      have := ids_lt hi e he
+      omega
+    rcases he0 with ⟨h0, _, hr0⟩ | ⟨h0, hcf, hr0⟩
+    · exact ⟨u, k, e0, hl, hst, ht, by rw [h0]; rfl, by rw [h0]; rfl, hfresh, Or.inl ⟨h0, hr0⟩⟩
+    · simp only [State.connectFails, Bool.and_eq_true] at hcf
+      exact ⟨u, k, e0, hl, hst, ht, by rw [h0]; rfl, by rw [h0]; rfl, hfresh,
+        Or.inr ⟨h0, hr0, by rw [← hcfg]; exact hcf.1, hcf.2, by rw [h0]; rfl, by rw [h0]; rfl⟩⟩
   · rw [h1, h2] at hlen; simp at hlen
 
-example : (step (exec (init ⟨false, 100, true⟩) [.postBegin none (some 1) .init]) (.publish 0)).map (·.2)
+/-- Non-vacuity of the refused creation: the id is consumed, nothing is ever listed or honoured. -/
+example :
+    let s := exec (init ⟨false, 100, true, true⟩) [.faults { connOpen := true }, .postBegin none (some 1) .init]
+    s.next = 1 ∧ liveIds s = [] ∧ serverIds s = [] ∧
+    step s (.postBegin (some 0) (some 1) .call) = some (s, .reject 404) := by decide
+
+example : (step (exec (init ⟨false, 100, true, false⟩) [.postBegin none (some 1) .init]) (.publish 0)).map (·.2)
     = some (.forward (some 0) true) := by decide
 
 /-! ## 2. an id addresses exactly one session -/
@@ -280,7 +346,7 @@ theorem dead_after_removal {cfg : Cfg} {s : State} (hr : Reach cfg s) (hfix : cf
   · intro u; simp [step, hst, stepStateful, hl]
   · simp [step, hst, stepStateful, hmod (timerFireF s'.now) (by simp [timerFireF, hrem'])]
   · simp [step, hst, stepStateful, hmod closeF (by simp [closeF, hrem'])]
-  · simp [step, hst, stepStateful, hmod closeDoneF (by simp [closeDoneF, hrem'])]
+  · simp [step, hst, stepStateful, hmod (closeDoneF s'.closeFails) (by simp [closeDoneF, hrem'])]
   · intro b; simp [step, hst, stepStateful, hmod (handlerDoneF b) (by simp [handlerDoneF, hrem'])]
 
 /-- Each of the four ways a session ends begins the close of exactly that session: an accepted DELETE,
@@ -377,20 +443,23 @@ theorem removal_causes_begin_close {cfg : Cfg} {s s' : State} {i : Nat} (hr : Re
 
 /-- A close that has begun stays begun until the entry is removed, and it *can* complete as soon as no
 handler is in flight: `closeDone` is enabled, removes the entry and takes it out of the map (after
-which `dead_after_removal` applies). -/
+which `dead_after_removal` applies) — whether or not closing the connection reports an error
+(`s.closeFails`: the configured event store's `SessionClosed` fails); the error is only recorded. -/
 theorem close_completes {cfg : Cfg} {s : State} (hr : Reach cfg s) (hfix : cfg.publishChecks = true)
     {e : Sess} (he : e ∈ s.tbl) (hc : e.closing = true) :
     (∀ ls, ∃ e' ∈ (exec s ls).tbl, e'.id = e.id ∧ e'.closing = true) ∧
     (e.removed = false → e.busy = 0 → e.initBusy = 0 →
       ∃ s', step s (.closeDone e.id) = some (s', .tau) ∧
-        ∃ e' ∈ s'.tbl, e'.id = e.id ∧ e'.removed = true ∧ e'.inMap = false) := by
+        ∃ e' ∈ s'.tbl, e'.id = e.id ∧ e'.removed = true ∧ e'.inMap = false ∧ e'.timer = .nil ∧
+          e'.closeErr = s.closeFails) := by
   have hi := reach_inv hr hfix
   refine ⟨fun ls => ?_, ?_⟩
   · obtain ⟨e', h1, h2, _, _, h5⟩ := exec_keeps s ls e he
     exact ⟨e', h1, h2, h5 hc⟩
   · intro hrem hb hib
     have hf := findSess_mem hi he
-    have hcd : closeDoneF e = some { e with removed := true, inMap := false, timer := .nil } := by
+    have hcd : closeDoneF s.closeFails e =
+        some { e with removed := true, inMap := false, timer := .nil, closeErr := s.closeFails } := by
       simp [closeDoneF, hrem, hc, hb, hib]
     obtain ⟨t, ht⟩ := modify_enabled hf hcd
     have hst := stateful_of_mem hi he
@@ -398,7 +467,121 @@ theorem close_completes {cfg : Cfg} {s : State} (hr : Reach cfg s) (hfix : cfg.p
     obtain ⟨pre, e1, post, e1', _, p2, _, _, p5, p6⟩ := modify_some ht
     rw [hf] at p6; cases p6
     rw [hcd] at p5; cases p5
-    exact ⟨{ e with removed := true, inMap := false, timer := .nil }, by rw [p2]; simp, rfl, rfl, rfl⟩
+    exact ⟨{ e with removed := true, inMap := false, timer := .nil, closeErr := s.closeFails },
+      by rw [p2]; simp, rfl, rfl, rfl, rfl, rfl⟩
+
+/-- The environment's label changes nothing but the set of failing event-store methods. -/
+theorem faults_only_change_environment (s : State) (f : Faults) :
+    step s (.faults f) = some ({ s with faults := f }, .tau) := by
+  unfold step
+  split <;> simp [stepStateless, stepStateful]
+
+/-- **Close completion is total in the collaborators' outcomes.**  Take any reachable state and any
+session whose close has begun (by DELETE, idle timeout, server-side close or failed initialize:
+`removal_causes_begin_close`) and that has no handler in flight.  Let the environment choose *any* set
+`f` of failing event-store methods for the moment the connection is closed.  Then the close completes;
+afterwards the entry is removed, it is neither a key of `h.sessions` nor listed by `Server.Sessions()`,
+its timer is gone, and every POST, GET and DELETE with its id is answered 404 and changes nothing.  The
+only trace of the collaborator's failure is the error that `Close()` reports
+(`closeErr = eventStore ∧ f.closed`).  No outcome of the collaborator leaves the entry behind. -/
+theorem close_total {cfg : Cfg} {s : State} (hr : Reach cfg s) (hfix : cfg.publishChecks = true)
+    {e : Sess} (he : e ∈ s.tbl) (hc : e.closing = true) (hrem : e.removed = false)
+    (hb : e.busy = 0) (hib : e.initBusy = 0) (f : Faults) :
+    ∃ s₁ s₂, step s (.faults f) = some (s₁, .tau) ∧ step s₁ (.closeDone e.id) = some (s₂, .tau) ∧
+      (∃ e' ∈ s₂.tbl, e'.id = e.id ∧ e'.owner = e.owner ∧ e'.removed = true ∧ e'.inMap = false ∧
+          e'.timer = .nil ∧ e'.closeErr = (cfg.eventStore && f.closed)) ∧
+      e.id ∉ liveIds s₂ ∧ e.id ∉ serverIds s₂ ∧
+      (∀ u k, step s₂ (.postBegin (some e.id) u k) = some (s₂, .reject 404)) ∧
+      (∀ u, step s₂ (.get (some e.id) u) = some (s₂, .reject 404)) ∧
+      (∀ u, step s₂ (.delete (some e.id) u) = some (s₂, .reject 404)) := by
+  have h1 := faults_only_change_environment s f
+  have hr1 : Reach cfg { s with faults := f } := reach_step hr h1
+  have he1 : e ∈ ({ s with faults := f } : State).tbl := he
+  obtain ⟨s₂, h2, e', he', hid, hrm, him, htm, hce⟩ := (close_completes hr1 hfix he1 hc).2 hrem hb hib
+  have hr2 : Reach cfg s₂ := reach_step hr1 h2
+  have hd := dead_after_removal hr2 hfix he' hrm []
+  simp only [exec] at hd
+  obtain ⟨_, d2, d3, d4, d5, d6, _⟩ := hd
+  have hi2 := reach_inv hr2 hfix
+  have how : e'.owner = e.owner := by
+    obtain ⟨x, hx, hxid, hxo, _⟩ := step_keeps h2 e he1
+    have := entry_unique hi2 hx he' (hxid.trans hid.symm)
+    rw [← this]; exact hxo
+  have hcfg := reach_cfg hr
+  refine ⟨_, s₂, h1, h2, ⟨e', he', hid, how, hrm, him, htm, ?_⟩, ?_, ?_, ?_, ?_, ?_⟩
+  · rw [hce]; simp [State.closeFails, hcfg]
+  · rw [← hid]; exact d2
+  · rw [← hid]; exact d3
+  · rw [← hid]; exact d4
+  · rw [← hid]; exact d5
+  · rw [← hid]; exact d6
+
+/-- Until it is taken, the completion of a close stays enabled: once a close has begun and no handler
+is in flight, then after **every** continuation — further requests, clock ticks, timer callbacks,
+repeated closes, and every change of mind of the event store — the session is still closing, still has
+no handler in flight (nothing is handed to a closing session), and either it has been removed or
+`closeDone` is enabled.  So nothing the clients or the collaborators do can make a session that has
+ended stay. -/
+theorem close_stays_enabled {cfg : Cfg} {s : State} (hr : Reach cfg s) (hfix : cfg.publishChecks = true)
+    {e : Sess} (he : e ∈ s.tbl) (hc : e.closing = true) (hb : e.busy = 0) (hib : e.initBusy = 0)
+    (ls : List Label) :
+    ∃ e' ∈ (exec s ls).tbl, e'.id = e.id ∧ e'.closing = true ∧ e'.busy = 0 ∧ e'.initBusy = 0 ∧
+      (e'.removed = true ∨ ∃ s', step (exec s ls) (.closeDone e.id) = some (s', .tau)) := by
+  obtain ⟨e', h1, h2, h3, h4, h5⟩ := exec_keeps_quiet s ls e he ⟨hc, hb, hib⟩
+  refine ⟨e', h1, h2, h3, h4, h5, ?_⟩
+  cases hrem : e'.removed with
+  | true => exact Or.inl rfl
+  | false =>
+    obtain ⟨s', hs', _⟩ := (close_completes (reach_exec hr ls) hfix h1 h3).2 hrem h4 h5
+    exact Or.inr ⟨s', by rw [← h2]; exact hs'⟩
+
+/-- A close error is only ever reported for a session that is gone, and only with an event store: in
+every reachable state an entry whose `Close()` reports an error is removed, out of the handler's table,
+without timer or handlers. -/
+theorem close_error_leaves_nothing_behind {cfg : Cfg} {s : State} (hr : Reach cfg s)
+    (hfix : cfg.publishChecks = true) {e : Sess} (he : e ∈ s.tbl) (herr : e.closeErr = true) :
+    cfg.eventStore = true ∧ e.removed = true ∧ e.inMap = false ∧ e.timer = .nil ∧ e.busy = 0 ∧
+      e.initBusy = 0 ∧ e.id ∉ liveIds s ∧ e.id ∉ serverIds s := by
+  have hi := reach_inv hr hfix
+  have hg := hi.good e he
+  have h1 := hg.closeErr herr
+  have h2 := hg.removed h1.1
+  have hd := dead_after_removal hr hfix he h1.1 []
+  simp only [exec] at hd
+  exact ⟨by rw [← reach_cfg hr]; exact h1.2, h1.1, h2.1, (hg.unpublished h2.1).1, h2.2.1, h2.2.2.1, hd.2.1, hd.2.2.1⟩
+
+/-- Non-vacuity: the three ways a published session ends, each with `SessionClosed` failing at that
+moment: the entry is removed, `Close()` reports the error. -/
+example :
+    ((exec (init ⟨false, 100, true, true⟩) [.postBegin none (some 1) .init, .publish 0, .handlerDone 0 true,
+        .postEnd (some 0) true, .faults { closed := true }, .delete (some 0) (some 1), .closeDone 0]).tbl.map
+      (fun e => (e.removed, e.inMap, e.closeErr))) = [(true, false, true)] := by decide
+
+example :
+    ((exec (init ⟨false, 100, true, true⟩) [.postBegin none (some 1) .init, .publish 0, .handlerDone 0 true,
+        .postEnd (some 0) true, .faults { closed := true }, .tick 100, .timerFire 0, .closeDone 0]).tbl.map
+      (fun e => (e.removed, e.inMap, e.closeErr))) = [(true, false, true)] := by decide
+
+example :
+    ((exec (init ⟨false, 100, true, true⟩) [.postBegin none (some 1) .init, .publish 0, .handlerDone 0 true,
+        .postEnd (some 0) true, .faults { closed := true }, .serverClose 0, .closeDone 0]).tbl.map
+      (fun e => (e.removed, e.inMap, e.closeErr))) = [(true, false, true)] := by decide
+
+/-- … and the fourth: a creating POST whose stream the event store refuses to open is answered 500, did
+not initialize, and its session is closed and forgotten (with the close error reported as well). -/
+example :
+    let s := exec (init ⟨false, 100, true, true⟩) [.faults { closed := true, reqOpen := true },
+        .postBegin none (some 1) .init]
+    (step s (.publish 0)).map (·.2) = some (.storeRefused 500) ∧
+    ((exec s [.publish 0, .postEnd (some 0) true, .closeDone 0]).tbl.map
+      (fun e => (e.removed, e.inMap, e.closeErr))) = [(true, false, true)] := by decide
+
+/-- Without an event store nothing fails, whatever the environment says. -/
+example :
+    ((exec (init ⟨false, 100, true, false⟩) [.faults { closed := true, connOpen := true, reqOpen := true },
+        .postBegin none (some 1) .init, .publish 0, .handlerDone 0 true, .postEnd (some 0) true,
+        .serverClose 0, .closeDone 0]).tbl.map
+      (fun e => (e.removed, e.inMap, e.closeErr))) = [(true, false, false)] := by decide
 
 /-- The handler's map and the server's list agree except while a POST is creating the session: every
 key of `h.sessions` is a live server session, and a live server session that is not (yet) a key is one
@@ -416,27 +599,27 @@ theorem map_agrees_with_server {cfg : Cfg} {s : State} (hr : Reach cfg s) (hfix 
 /-- Non-vacuity: a session is created, initialized, idles for exactly its timeout, the timer fires, the
 close completes — and the entry is removed. -/
 example :
-    ((exec (init ⟨false, 100, true⟩) [.postBegin none (some 1) .init, .publish 0, .handlerDone 0 true,
+    ((exec (init ⟨false, 100, true, false⟩) [.postBegin none (some 1) .init, .publish 0, .handlerDone 0 true,
         .postEnd (some 0) true, .tick 100, .timerFire 0, .closeDone 0]).tbl.map (·.removed)) = [true] := by decide
 
 /-- … while one millisecond earlier the timer cannot fire and the session stays. -/
 example :
-    ((exec (init ⟨false, 100, true⟩) [.postBegin none (some 1) .init, .publish 0, .handlerDone 0 true,
+    ((exec (init ⟨false, 100, true, false⟩) [.postBegin none (some 1) .init, .publish 0, .handlerDone 0 true,
         .postEnd (some 0) true, .tick 99, .timerFire 0, .closeDone 0]).tbl.map (·.removed)) = [false] := by decide
 
 /-- F20, repaired: the server closes the session between `Connect` and the publication; the
 publication then leaves nothing in the map. -/
 example :
-    ((exec (init ⟨false, 100, true⟩) [.postBegin none (some 1) .init, .serverClose 0, .closeDone 0, .publish 0,
+    ((exec (init ⟨false, 100, true, false⟩) [.postBegin none (some 1) .init, .serverClose 0, .closeDone 0, .publish 0,
         .postEnd (some 0) true]).tbl.map (fun e => (e.removed, e.inMap))) = [(true, false)] := by decide
 
 /-- F20, the defect: with the unconditional publication of the original code, the same schedule leaves
 a removed session in `h.sessions`; GET and DELETE with its id are then served instead of answered 404,
 for ever (nothing can remove the entry: its timer never fires and `closeDone` is not enabled). -/
 theorem zombie_without_publish_check :
-    let s := exec (init ⟨false, 100, false⟩) [.postBegin none (some 1) .init, .serverClose 0, .closeDone 0,
+    let s := exec (init ⟨false, 100, false, false⟩) [.postBegin none (some 1) .init, .serverClose 0, .closeDone 0,
         .publish 0, .postEnd (some 0) true, .tick 1000]
-    Reach ⟨false, 100, false⟩ s ∧
+    Reach ⟨false, 100, false, false⟩ s ∧
     s.tbl.map (fun e => (e.removed, e.inMap)) = [(true, true)] ∧ liveIds s = [0] ∧ serverIds s = [] ∧
     step s (.get (some 0) (some 1)) = some (s, .stream) ∧
     step s (.delete (some 0) (some 1)) = some (s, .closeAccepted) ∧
@@ -461,10 +644,12 @@ theorem owner_binding {cfg : Cfg} {s : State} (hr : Reach cfg s) (hfix : cfg.pub
   refine ⟨fun k => ?_, ?_, ?_⟩ <;> simp [step, hst, stepStateful, hl]
 
 /-- The owner (and anybody, for a session created without a user id) is let through: the binding does
-not lock the legitimate user out. -/
+not lock the legitimate user out.  (With an event store whose replay fails the transport answers the
+GET 400 after the session layer has let it through; the state is unchanged either way.) -/
 theorem owner_admitted {cfg : Cfg} {s : State} (hr : Reach cfg s) (hfix : cfg.publishChecks = true)
     {e : Sess} (he : e ∈ s.tbl) (hlive : e.inMap = true) {u : User} (hu : e.owner = none ∨ e.owner = u) :
-    lookup s.tbl e.id u = .ok e ∧ step s (.get (some e.id) u) = some (s, .stream) := by
+    lookup s.tbl e.id u = .ok e ∧
+    step s (.get (some e.id) u) = some (s, if s.replayFails then .storeRefused 400 else .stream) := by
   have hi := reach_inv hr hfix
   have hst := stateful_of_mem hi he
   have hl : lookup s.tbl e.id u = .ok e := by
@@ -475,10 +660,77 @@ theorem owner_admitted {cfg : Cfg} {s : State} (hr : Reach cfg s) (hfix : cfg.pu
     · cases ho : e.owner with
       | none => simp [hlive, ho]
       | some o => simp [hlive, ho]; rw [← h, ho]
-  exact ⟨hl, by simp [step, hst, stepStateful, hl]⟩
+  refine ⟨hl, ?_⟩
+  cases hrf : s.replayFails <;> simp [step, hst, stepStateful, hl, hrf, stReplayFailed, Generated.Sessions.replayFailed]
 
-example : ∃ s, Reach ⟨false, 100, true⟩ s ∧ ∃ e ∈ s.tbl, e.inMap = true ∧ e.owner = some 1 :=
+example : ∃ s, Reach ⟨false, 100, true, false⟩ s ∧ ∃ e ∈ s.tbl, e.inMap = true ∧ e.owner = some 1 :=
   ⟨_, ⟨[.postBegin none (some 1) .init, .publish 0], rfl⟩, _, List.mem_cons_self, by decide, by decide⟩
+
+/-- A failing event store cannot end, open or hijack a session through a request.  When the transport
+answers with an error status because the event store failed (`storeRefused`):
+* a GET was answered 400 after it had passed `lookupSession` (entry in the map, entitled user), and the
+  state is unchanged;
+* a POST with a session id was answered 500 after it had passed `lookupSession`; it carries a call, and
+  the only change is that the POST is counted (`startPOST`, to be undone by the `endPOST` that
+  follows): nothing was handed to the server session, no close began, nothing was removed. -/
+theorem store_refusal_is_harmless {cfg : Cfg} {s s' : State} {i : Nat} {u : User} (hr : Reach cfg s)
+    (hfix : cfg.publishChecks = true) (hsf : cfg.stateless = false) :
+    (∀ c, step s (.get (some i) u) = some (s', .storeRefused c) →
+      c = 400 ∧ s' = s ∧ cfg.eventStore = true ∧ ∃ e, lookup s.tbl i u = .ok e) ∧
+    (∀ k c, step s (.postBegin (some i) u k) = some (s', .storeRefused c) →
+      c = 500 ∧ cfg.eventStore = true ∧ k.hasCall = true ∧
+      ∃ e, lookup s.tbl i u = .ok e ∧ startTimer e ∈ s'.tbl ∧ s'.tbl.length = s.tbl.length ∧
+        (startTimer e).busy = e.busy ∧ (startTimer e).initBusy = e.initBusy ∧
+        (startTimer e).closing = e.closing ∧ (startTimer e).removed = false ∧ (startTimer e).inMap = true) := by
+  have hi := reach_inv hr hfix
+  have hcfg := reach_cfg hr
+  have hst : s.cfg.stateless = false := by rw [hcfg]; exact hsf
+  refine ⟨?_, ?_⟩
+  · intro c h
+    unfold step at h
+    split at h
+    · rename_i hx; rw [hst] at hx; cases hx
+    simp only [stepStateful] at h
+    split at h
+    · cases h
+    · rename_i e hl
+      split at h
+      · rename_i hrf
+        cases h
+        simp only [State.replayFails, Bool.and_eq_true] at hrf
+        exact ⟨by decide, rfl, by rw [← hcfg]; exact hrf.1, e, hl⟩
+      · cases h
+  · intro k c h
+    unfold step at h
+    split at h
+    · rename_i hx; rw [hst] at hx; cases hx
+    simp only [stepStateful] at h
+    split at h
+    · cases h
+    · rename_i e hl
+      split at h
+      · cases h
+      · rename_i t hm
+        simp only [postResp] at h
+        split at h
+        · cases h
+        · rename_i hac
+          cases h
+          have hac : s.accepts k = false := by simpa using hac
+          simp only [State.accepts, Bool.not_eq_false', Bool.and_eq_true, State.openFails] at hac
+          have hlk := lookup_ok hl
+          obtain ⟨pre, e1, post, e1', p1, p2, _, _, p5, p6⟩ := modify_some hm
+          rw [hlk.1] at p6; cases p6
+          have he' : e1' = startTimer e := by
+            have : s.accepts k = false := by simp [State.accepts, State.openFails, hac]
+            simp [startPost, deliver, this] at p5
+            exact p5.symm
+          have hs := startTimer_fields e
+          have hmem := (findSess_some hlk.1).1
+          have hrm := (good_inMap (hi.good e hmem) hlk.2.1).1
+          refine ⟨by decide, by rw [← hcfg]; exact hac.2.1, hac.1, e, hl, ?_, by simp [p1, p2],
+            hs.2.2.2.2.2.2.2.1, hs.2.2.2.2.2.2.2.2, hs.2.2.2.1, by rw [hs.1]; exact hrm, by rw [hs.2.2.2.2.2.1]; exact hlk.2.1⟩
+          rw [p2, ← he']; simp
 
 /-! ## 5. the idle timer never fires while a POST is in progress -/
 
@@ -554,12 +806,12 @@ theorem refs_assert_never_fails {cfg : Cfg} {s s' : State} {r : Resp} {i : Nat} 
 
 /-- Non-vacuity: with a POST in progress across the whole timeout the timer label is not enabled … -/
 example :
-    step (exec (init ⟨false, 100, true⟩) [.postBegin none (some 1) .init, .publish 0, .handlerDone 0 true,
+    step (exec (init ⟨false, 100, true, false⟩) [.postBegin none (some 1) .init, .publish 0, .handlerDone 0 true,
         .postEnd (some 0) true, .postBegin (some 0) (some 1) .call, .tick 500]) (.timerFire 0) = none := by decide
 
 /-- … and it is as soon as the POST has ended and a full timeout has passed again. -/
 example :
-    (step (exec (init ⟨false, 100, true⟩) [.postBegin none (some 1) .init, .publish 0, .handlerDone 0 true,
+    (step (exec (init ⟨false, 100, true, false⟩) [.postBegin none (some 1) .init, .publish 0, .handlerDone 0 true,
         .postEnd (some 0) true, .postBegin (some 0) (some 1) .call, .tick 500, .handlerDone 0 false,
         .postEnd (some 0) false, .tick 100])
       (.timerFire 0)).isSome = true := by decide
@@ -568,12 +820,14 @@ example :
 
 /-- On a stateless endpoint, in every reachable state: no session is ever kept, no response ever
 carries an `Mcp-Session-Id`, a POST is treated the same whatever session id and user it carries (it is
-handed to a temporary session), and GET, DELETE and any other method are answered 405 without any
-effect. -/
+handed to a temporary session — or refused with 500 when the event store does not let the temporary
+session connect), and GET, DELETE and any other method are answered 405 without any effect. -/
 theorem stateless_no_ids_405 {cfg : Cfg} {s : State} (hr : Reach cfg s) (hfix : cfg.publishChecks = true)
     (hst : cfg.stateless = true) :
     s.tbl = [] ∧ liveIds s = [] ∧ serverIds s = [] ∧
-    (∀ sid u k, step s (.postBegin sid u k) = some ({ s with eph := s.eph + 1 }, .forward none true)) ∧
+    (∀ sid u k, step s (.postBegin sid u k) = step s (.postBegin none none k)) ∧
+    (∀ sid u k, s.connectFails = false → s.accepts k = true →
+      step s (.postBegin sid u k) = some ({ s with eph := s.eph + 1 }, .forward none true)) ∧
     (∀ sid u, step s (.get sid u) = some (s, .reject 405)) ∧
     (∀ sid u, step s (.delete sid u) = some (s, .reject 405)) ∧
     (∀ sid u, step s (.other sid u) = some (s, .reject 405)) ∧
@@ -581,8 +835,9 @@ theorem stateless_no_ids_405 {cfg : Cfg} {s : State} (hr : Reach cfg s) (hfix : 
   have hi := reach_inv hr hfix
   have hs : s.cfg.stateless = true := by rw [reach_cfg hr]; exact hst
   have ht := hi.stateless hs
-  refine ⟨ht, by simp [liveIds, ht], by simp [serverIds, ht], ?_, ?_, ?_, ?_, ?_⟩
+  refine ⟨ht, by simp [liveIds, ht], by simp [serverIds, ht], ?_, ?_, ?_, ?_, ?_, ?_⟩
   · intro sid u k; simp [step, hs, stepStateless]
+  · intro sid u k hcf hac; simp [step, hs, stepStateless, hcf, postResp, hac]
   · intro sid u; simp [step, hs, stepStateless, status_codes.2.2.1]
   · intro sid u; simp [step, hs, stepStateless, status_codes.2.2.1]
   · intro sid u; simp [step, hs, stepStateless, status_codes.2.2.1]
@@ -590,7 +845,7 @@ theorem stateless_no_ids_405 {cfg : Cfg} {s : State} (hr : Reach cfg s) (hfix : 
     have := (id_minted_only_on_creating_post hr hfix h).1
     rw [hs] at this; cases this
 
-example : Reach ⟨true, 100, true⟩ (exec (init ⟨true, 100, true⟩) [.postBegin (some 7) none .init, .get (some 7) none]) :=
+example : Reach ⟨true, 100, true, false⟩ (exec (init ⟨true, 100, true, false⟩) [.postBegin (some 7) none .init, .get (some 7) none]) :=
   ⟨_, rfl⟩
 
 end Sessions
